@@ -376,3 +376,47 @@ for _k in BOGUS:
                           outside='openers followed by text that does form a tag (covered by the slot obligations)'))
 OBLIGATIONS.append(Ob('cross_syntax', ob_cross_syntax, CP[:2], timeout=tier(250, 900), stubs='relib-escape', data='two symbolic code points in the source; order of compilation',
                       selectors='one source text compiled as String and as HTML in the same process'))
+
+
+# ---------------------------------------------------------------- wave 3: text that merely LOOKS like a %( tag (String syntax)
+def is_tag_name_char(ch):
+    return ('a' <= ch <= 'z') or ('A' <= ch <= 'Z') or ('0' <= ch <= '9') or ch in '_/.-'
+
+
+def make_bogus_string(key):
+    """%(name<c>...)s is a tag only when <c> is one of the characters up to blank that may separate name and arguments (or the tag
+    ends there); with any other character it is plain text, emitted verbatim, and real tags after it are still rendered"""
+    def ob(c1: int, c2: int) -> bool:
+        a, b = chr(c1), chr(c2)
+        if c1 <= 32 or is_tag_name_char(a) or a == ')' or a == '"' or a == '%':
+            return True                   # a real separator / longer name / end of tag: outside this obligation
+        if b == ')' or b == '"' or b == '%' or b == '(':
+            return True
+        if key == 'sep':
+            src, want = 'A%(var' + a + 'x)sZ%(y)s', 'A%(var' + a + 'x)sZY'
+        elif key == 'mod':
+            src, want = 'A%(x' + a + 'upper)sZ%(y)s', 'A%(x' + a + 'upper)sZY'
+        elif key == 'two':
+            src, want = 'A%(x' + a + b + ')sZ%(y)s', 'A%(x' + a + b + ')sZY'
+        elif key == 'block':
+            src, want = 'A%(if' + a + 'c)[T%(if)]Z%(y)s', None
+        else:
+            src, want = 'A%(' + a + 'x)sZ%(y)s', 'A%(' + a + 'x)sZY'
+        t = String(src)
+        if want is None:
+            # the opener is not a tag, so the closer has nothing to close: ParseError is the documented outcome
+            try:
+                t.cook()
+            except Exception as e:
+                return type(e).__name__ == 'ParseError'
+            return False
+        return t(x='X', y='Y', c=1) == want
+    ob.__name__ = 'ob_bogus_string_' + key
+    return ob
+
+
+for _k in ('sep', 'mod', 'two', 'block', 'name'):
+    OBLIGATIONS.append(Ob('bogus_string_' + _k, make_bogus_string(_k), ['0 <= c1 <= 0x10FFFF', '0 <= c2 <= 0x10FFFF'], timeout=tier(200, 600), stubs='relib-escape',
+                          data='1-2 code points (any value) at the place where a %( tag would need a separator',
+                          selectors='String syntax: %(var<c>x)s, %(x<c>upper)s, %(x<c1><c2>)s, %(if<c>c)[..%(if)], %(<c>x)s followed by a real tag',
+                          outside='more than two symbolic code points'))
